@@ -12,7 +12,9 @@ fn dispatch(ctx: &Ctx) {
         "C03" => vcore::c03::run(ctx),
         "C04" => vcore::c04::run(ctx),
         "C05" => vcore::c05::run(ctx),
+        "C06" => vcore::c06::run(ctx),
         "C07" => vcore::c07::run(ctx),
+        "C08" => vcore::c08::run(ctx),
         "C09" => vcore::c09::run(ctx),
         "C10" => vcore::c10::run(ctx),
         "C11" => vcore::c11::run(ctx),
